@@ -1435,3 +1435,14 @@ MUTANTS += [
 """, """                        Err(send_buffers::Error::NoBuffers(_)) => {
 """)]),
 ]
+
+MUTANTS += [
+ dict(id="C06-uring-v6-receive-rearmed-with-v4-entry", props=["C06"], expect={"C06": r"recv#uring#family_arms"},
+      edits=[(URM, """                if !io_uring::cqueue::more(cqe.flags()) {
+                    self.resubmittable_sqe_buf.push(self.recv_sqe_ipv6.clone());
+                }""", """                if !io_uring::cqueue::more(cqe.flags()) {
+                    self.resubmittable_sqe_buf.push(self.recv_sqe_ipv4.clone());
+                }""")]),
+ dict(id="C06-uring-v6-completion-parsed-as-v4", props=["C06"], expect={"C06": r"recv#uring#family_arms"},
+      edits=[(URM, "                if let Some((addr, response)) = self.handle_recv_cqe(&cqe, false) {", "                if let Some((addr, response)) = self.handle_recv_cqe(&cqe, true) {")]),
+]
